@@ -336,3 +336,23 @@ M("c15_order_by_ignored_for_scalars", "C15", "ak/mtd_sql.py",
   "        if order_by_clause is not None and not as_scalars:\n            sql += \" ORDER BY \" + order_by_clause")
 M("c15_one_or_none_returns_first", "C15", "ak/mtd_sql.py",
   "        if len(all_records) > 1:\n            raise ValueError", "        if len(all_records) > 2:\n            raise ValueError")
+
+# ---------------------------------------------------------------- C16
+M("c16_lock_dropped", "C16", "ak/conn_http.py",
+  "        with self._reqid_generator_guard:\n            next_req_id = self._cur_req_id\n            self._cur_req_id += 1",
+  "        next_req_id = self._cur_req_id\n        self._cur_req_id += 1")
+M("c16_increment_outside_lock", "C16", "ak/conn_http.py",
+  "        with self._reqid_generator_guard:\n            next_req_id = self._cur_req_id\n            self._cur_req_id += 1",
+  "        with self._reqid_generator_guard:\n            next_req_id = self._cur_req_id\n        self._cur_req_id = next_req_id + 1")
+M("c16_lock_per_call", "C16", "ak/conn_http.py",
+  "        with self._reqid_generator_guard:\n            next_req_id = self._cur_req_id",
+  "        with threading.Lock():\n            next_req_id = self._cur_req_id")
+M("c16_derived_gets_own_impl", "C16", "ak/conn_http.py",
+  "        self.parent_conn = parent_conn\n        self.conn_impl = parent_conn.conn_impl\n",
+  "        self.parent_conn = parent_conn\n        self.conn_impl = parent_conn.conn_impl\n        if isinstance(conn_data, _HttpConnBase) and isinstance(conn_data.parent_conn, _HttpConnBase):\n            import copy\n            self.conn_impl = copy.copy(parent_conn.conn_impl)\n")
+M("c16_own_id_consumes_number", "C16", "ak/conn_http.py",
+  "            if 'X-Request-ID' not in headers:\n                headers['X-Request-ID'] = self._generate_request_id()",
+  "            new_id = self._generate_request_id()\n            if 'X-Request-ID' not in headers:\n                headers['X-Request-ID'] = new_id")
+M("c16_read_before_lock", "C16", "ak/conn_http.py",
+  "        with self._reqid_generator_guard:\n            next_req_id = self._cur_req_id\n            self._cur_req_id += 1",
+  "        next_req_id = self._cur_req_id\n        with self._reqid_generator_guard:\n            self._cur_req_id = next_req_id + 1")
